@@ -2,6 +2,7 @@ package base
 
 import (
 	"slices"
+	"strings"
 )
 
 type Sig struct {
@@ -53,6 +54,24 @@ var MethodCallPoint = make(map[string][]CallPoint)
 var MethodCalleePoint = make(map[string][]CalleePoint)
 var SpecialCodeComments = []SpecialCodeComment{}
 
+// compareSigTieBreak orders signatures that share method, class and frame
+// (static/instance pairs, overloads) so that listings are reproducible.
+func compareSigTieBreak(a, b Sig) int {
+	if a.IsStatic != b.IsStatic {
+		if !a.IsStatic {
+			return -1
+		}
+		return 1
+	}
+	if c := strings.Compare(a.Detail, b.Detail); c != 0 {
+		return c
+	}
+	if c := strings.Compare(a.FileName, b.FileName); c != 0 {
+		return c
+	}
+	return a.Row - b.Row
+}
+
 func GetSortedTSignatures() []Sig {
 	sortedSignatures := make([]Sig, 0, len(TSignatures))
 
@@ -79,7 +98,7 @@ func GetSortedTSignatures() []Sig {
 		if a.Frame > b.Frame {
 			return 1
 		}
-		return 0
+		return compareSigTieBreak(a, b)
 	})
 
 	return sortedSignatures
@@ -111,7 +130,7 @@ func GetSortedTSignaturesByClass() []Sig {
 		if a.Frame > b.Frame {
 			return 1
 		}
-		return 0
+		return compareSigTieBreak(a, b)
 	})
 
 	return sortedSignatures
